@@ -35,6 +35,15 @@ def generate(rng, tier):
             if not any(lo_ <= v <= hi_ for v in c["xin"]):     # an empty window has no Qmin: the option is undefined there
                 c["omitted"] = False
                 c["desc"]["omitted"] = False
+            elif c["xmin"] is not None and c["xmin"] > 0 and sorted(c["xin"]) == c["xin"] and (i // 7) % 2 == 0:
+                # the data start at the origin, the window leaves that point out: Qmin of the correction is the first point kept
+                c["xin"] = [0.0] + list(c["xin"])
+                c["yin"] = [0.75] + list(c["yin"])
+                if c["dy"] is not None:
+                    c["dy"] = [0.02] + list(c["dy"])
+                c["int_dtype"] = [False, False, c["int_dtype"][2]]
+                c["desc"]["n"] = len(c["xin"])
+                c["desc"]["grid"] = str(c["desc"]["grid"]) + "+origin_outside_window"
         if i % 10 == 4 and len(c["xin"]) >= 3:
             # a grid with points on both sides of zero and a window edge exactly at 0.0
             k = len(c["xin"]) // 2
